@@ -2,6 +2,8 @@ import Clikit.Lemmas.Help
 import Clikit.Lemmas.HelpSame
 import Clikit.Lemmas.HelpWired
 import Clikit.Props.C03
+import Clikit.Props.C09
+import Clikit.Lemmas.AppHelp
 /-!
 # C13 - help pages are complete, respect hiding, fit the terminal and never fail
 
@@ -784,5 +786,298 @@ example : ∃ s, renderPageAt wrapH 30 4 (commandHelp demo (demo.ctx.enter cServ
   have hs' : renderPageAt wrapH 30 4 (commandHelp demo (demo.ctx.enter cServer) cAdd) = .ok s := by
     simpa [renderCommandHelpAt, show formatOK cAdd.help = true by decide] using hs
   exact ⟨s, hs', help_width_indented wrapH help_wrap_contract.2.1 30 4 _ s hs'⟩
+
+/-! ## End to end: the text a help run prints (`Model/AppHelp.lean`)
+
+The run model (`App.runApp`, C09: the help switch gives the page of the selected command, status 0, no
+handler) composed with the page model: `App.helpRun` is the run together with the text
+`Help.renderTarget` prints for the page of its outcome, at the terminal width of the run.  The
+application is ONE tree of configurations `happ : HApp`; the resolver works on `App.treeOf happ`
+(its enabled configurations).  The assumption of `Model/App.lean` that rendering the page succeeds is
+discharged here from `widthOK` (`help_total`). -/
+section AppHelp
+open Clikit.App Clikit.Switches
+
+/-- what `help_complete`, `help_inherits` and `help_hides` say about the page `p` of the command `c`
+found with the context `x` of its parents: every own and inherited argument, every own option, every
+inherited option - the global ones among them - is an entry of the page; with distinct sibling names
+every enabled, named, non-hidden sub-command has its name line; every name line of the COMMANDS block
+comes from such a sub-command, and a hidden / disabled / anonymous one has none. -/
+def CommandPageLists (happ : HApp) (x : Ctx) (c : HCmd) (p : Page) : Prop :=
+  (∀ a ∈ x.args ++ c.args, (2, argElem a) ∈ p) ∧
+  (∀ o ∈ c.opts, (2, optElem o) ∈ p) ∧
+  (∀ o ∈ x.opts, (2, optElem o) ∈ p) ∧
+  (∀ o ∈ happ.opts, (2, optElem o) ∈ p) ∧
+  (((live c.subs).map (·.name)).Nodup → ∀ d ∈ c.subs, d.enabled = true → d.anonymous = false →
+    d.hidden = false → (2, Element.paragraph (tagU d.name)) ∈ p) ∧
+  (∀ t, (2, Element.paragraph t) ∈ subCommandsSection c →
+    ∃ d ∈ c.subs, t = tagU d.name ∧ d.enabled = true ∧ d.anonymous = false ∧ d.hidden = false) ∧
+  ((c.subs.map (·.name)).Nodup → ∀ d ∈ c.subs, (d.hidden = true ∨ d.enabled = false ∨ d.anonymous = true) →
+    (2, Element.paragraph (tagU d.name)) ∉ subCommandsSection c)
+
+/-- the same for the application page: every global option; with distinct names every enabled, named,
+non-hidden command; every label of the AVAILABLE COMMANDS block comes from such a command, and a
+hidden / disabled / anonymous one has none. -/
+def ApplicationPageLists (happ : HApp) (p : Page) : Prop :=
+  (∀ o ∈ happ.opts, (2, optElem o) ∈ p) ∧
+  (((live happ.cmds).map (·.name)).Nodup → ∀ d ∈ happ.cmds, d.enabled = true → d.anonymous = false →
+    d.hidden = false → (2, Element.labeled d.name (some d.descr) 2 true) ∈ p) ∧
+  (∀ i l t q a, (i, Element.labeled l t q a) ∈ appCommandsSection happ.cmds →
+    ∃ d ∈ happ.cmds, l = d.name ∧ d.enabled = true ∧ d.anonymous = false ∧ d.hidden = false) ∧
+  ((happ.cmds.map (·.name)).Nodup → ∀ d ∈ happ.cmds, (d.hidden = true ∨ d.enabled = false ∨ d.anonymous = true) →
+    ∀ i t q a, (i, Element.labeled d.name t q a) ∉ appCommandsSection happ.cmds)
+
+/-- what the page `p` of the target `t` lists -/
+def PageLists (happ : HApp) (t : Target) (p : Page) : Prop :=
+  match t with
+  | .app => ApplicationPageLists happ p
+  | .cmd path => ∀ x c, findPath happ.ctx happ.cmds path = some (x, c) → CommandPageLists happ x c p
+
+/-- **`help_page_text`**: the text of a help page on a terminal that is wide enough.  For the page `p`
+of a target (`targetPage`: the application page, or the page of the configuration under the name path)
+whose help text has no brace (`targetFormatOK`) and a terminal with `widthOK w p`: rendering succeeds,
+the text is the rendering of `p`, every line of it is shorter than the terminal, and the page lists
+what `PageLists` says. -/
+theorem help_page_text (wrap : Nat → Str → List Str) (hwrap : WrapLen wrap) (w : Nat) (happ : HApp) (t : Target)
+    (p : Page) (hp : targetPage happ t = some p) (hf : targetFormatOK happ t = true) (hw : widthOK w p = true) :
+    ∃ s, renderTarget wrap w happ t = .ok s ∧ renderPage wrap w p = .ok s ∧
+      (∀ l ∈ pageLines s, l.length ≤ w - 1) ∧ PageLists happ t p := by
+  have heq := renderTarget_page wrap w happ t p hp hf
+  have hlists : PageLists happ t p := by
+    cases t with
+    | app =>
+      simp only [targetPage, Option.some.injEq] at hp
+      subst hp
+      have hc := help_complete happ default default
+      have hh := help_hides happ default
+      exact ⟨hc.2.2.2.2.1, hc.2.2.2.2.2, hh.2.1, hh.2.2.2⟩
+    | cmd path =>
+      intro x c hfp
+      simp only [targetPage, hfp, Option.some.injEq] at hp
+      subst hp
+      have hc := help_complete happ x c
+      have hh := help_hides happ c
+      obtain ⟨_, _, hglob, _, _⟩ := help_inherits happ path x c hfp
+      exact ⟨hc.1, hc.2.1, hc.2.2.1, fun o ho => hc.2.2.1 o (hglob o ho), hc.2.2.2.1, hh.1, hh.2.2.1⟩
+  have hok : ∃ s, renderPage wrap w p = .ok s := by
+    cases t with
+    | app =>
+      simp only [targetPage, Option.some.injEq] at hp
+      simp only [targetFormatOK] at hf
+      subst hp
+      obtain ⟨s, hs⟩ := (help_total wrap w happ default default).1 hf hw
+      exact ⟨s, by simpa [renderApplicationHelp, hf] using hs⟩
+    | cmd path =>
+      cases hfp : findPath happ.ctx happ.cmds path with
+      | none => simp [targetPage, hfp] at hp
+      | some xc =>
+        obtain ⟨x, c⟩ := xc
+        simp only [targetPage, hfp, Option.some.injEq] at hp
+        simp only [targetFormatOK, hfp] at hf
+        subst hp
+        obtain ⟨s, hs⟩ := (help_total wrap w happ x c).2.1 hf hw
+        exact ⟨s, by simpa [renderCommandHelp, hf] using hs⟩
+  obtain ⟨s, hs⟩ := hok
+  exact ⟨s, heq.trans hs, hs, help_width wrap hwrap w p s hs, hlists⟩
+
+/-- **`app_help_run_prints_page`** (C09 + C13, end to end).  For every application `happ`, handler
+assignment `hs`, terminal width `w` and line whose option tokens contain the help switch: when the
+lenient parse of the `help` command succeeds (`hparse`), the parsed args are not a version request
+(`hv`), the help resolver selects the page `t` (`ht`), the configuration of `t` exists with page `p`
+(`hp`), its help text has no brace (`hf`) and the terminal is wide enough for `p` (`hw`), then the run
+shows the page `t` with status 0 and invokes no handler, and the text it prints is the rendering of
+`p`: every line is shorter than the terminal, every own and inherited option / argument and every
+non-hidden sub-command is listed, hidden ones are not (`PageLists`).
+(`hsw`, `hn`, `hget`, `hparse`, `hv`, `ht` are the hypotheses of `C09.app_help_switch`.) -/
+theorem app_help_run_prints_page (wrap : Nat → Str → List Str) (hwrap : WrapLen wrap) (w : Nat) (env : Env)
+    (cv : Conv) (happ : HApp) (hs : Handlers) (toks : List Str)
+    (hsw : helpSwitch toks = true) (hn : helpNamedB (treeOf happ) = true)
+    (h : Cmd) (a : Args) (hget : (Coll.ofList (treeOf happ)).get? helpName = some h)
+    (hparse : parse cv h.fmt true toks = .ok a) (hv : versionSet a = false)
+    (t : Target) (ht : helpTarget cv (treeOf happ) toks = .ok (some t))
+    (p : Page) (hp : targetPage happ t = some p) (hf : targetFormatOK happ t = true) (hw : widthOK w p = true) :
+    (helpRun wrap w env cv happ hs toks).1.what = .helpPage t ∧
+    (helpRun wrap w env cv happ hs toks).1.status = some 0 ∧
+    (helpRun wrap w env cv happ hs toks).1.invoked = [] ∧
+    ∃ s, (helpRun wrap w env cv happ hs toks).2 = some (.ok s) ∧ renderPage wrap w p = .ok s ∧
+      (∀ l ∈ pageLines s, l.length ≤ w - 1) ∧ PageLists happ t p := by
+  obtain ⟨hinv, hrest⟩ := C09.app_help_switch env cv (treeOf happ) hs toks hsw hn
+  obtain ⟨hwhat, hst⟩ := (hrest h a hget hparse).1 hv t ht
+  obtain ⟨s, hs1, hs2, hs3, hs4⟩ := help_page_text wrap hwrap w happ t p hp hf hw
+  refine ⟨hwhat, hst, hinv, s, ?_, hs2, hs3, hs4⟩
+  simp only [helpRun, hwhat, printed, hs1]
+
+/-- **`app_help_command_prints_page`**: the same for a line WITHOUT the switch that resolves to the
+top-level command `help` (`help`, `help <path>`; hypotheses of `C09.app_help_command`). -/
+theorem app_help_command_prints_page (wrap : Nat → Str → List Str) (hwrap : WrapLen wrap) (w : Nat) (env : Env)
+    (cv : Conv) (happ : HApp) (hs : Handlers) (toks : List Str) (a : Args)
+    (hsw : helpSwitch toks = false) (hr : resolve cv (treeOf happ) toks = .ok ([helpName], a))
+    (hv : versionSet a = false) (t : Target) (ht : helpTarget cv (treeOf happ) toks = .ok (some t))
+    (p : Page) (hp : targetPage happ t = some p) (hf : targetFormatOK happ t = true) (hw : widthOK w p = true) :
+    (helpRun wrap w env cv happ hs toks).1.what = .helpPage t ∧
+    (helpRun wrap w env cv happ hs toks).1.status = some 0 ∧
+    (helpRun wrap w env cv happ hs toks).1.invoked = [] ∧
+    ∃ s, (helpRun wrap w env cv happ hs toks).2 = some (.ok s) ∧ renderPage wrap w p = .ok s ∧
+      (∀ l ∈ pageLines s, l.length ≤ w - 1) ∧ PageLists happ t p := by
+  obtain ⟨hwhat, hst, hinv⟩ := C09.app_help_command env cv (treeOf happ) hs toks a hsw hr hv t ht
+  obtain ⟨s, hs1, hs2, hs3, hs4⟩ := help_page_text wrap hwrap w happ t p hp hf hw
+  refine ⟨hwhat, hst, hinv, s, ?_, hs2, hs3, hs4⟩
+  simp only [helpRun, hwhat, printed, hs1]
+
+/-- **`app_help_command_same_text`**: `help <path>` and `<path> --help` / `<path> -h` print the SAME
+TEXT.  For an application wired as `DefaultApplicationConfig` wires it (`wiredB`, decided on the tree),
+a path of name-like tokens that does not start with a name of the `help` command (`headFreeB`) and
+neither run being a version request (`hv1`, `hv2`: facts about the two runs; the version listener
+answers before the help handler - under `wiredB` alone a tree may still declare `-h` as the short name
+of the version option): the two runs have the same outcome - the same page, or the same error of the
+help resolver - and print the same text, whatever the terminal width; and when the outcome is a page
+both have status 0 and neither invokes a handler. -/
+theorem app_help_command_same_text (wrap : Nat → Str → List Str) (w : Nat) (env : Env) (cv : Conv) (happ : HApp)
+    (hs : Handlers) (path : List Str) (sw : Str)
+    (hwired : wiredB (treeOf happ) sw = true) (hp : ∀ p ∈ path, C03.nameLike p = true)
+    (hh : headFreeB (treeOf happ) path = true) (hsw : sw = S "-h" ∨ sw = S "--help")
+    (hv1 : (runApp env cv (treeOf happ) hs (helpName :: path)).what ≠ .version)
+    (hv2 : (runApp env cv (treeOf happ) hs (path ++ [sw])).what ≠ .version) :
+    (helpRun wrap w env cv happ hs (helpName :: path)).1.what = (helpRun wrap w env cv happ hs (path ++ [sw])).1.what ∧
+    (helpRun wrap w env cv happ hs (helpName :: path)).2 = (helpRun wrap w env cv happ hs (path ++ [sw])).2 ∧
+    (∀ t, (helpRun wrap w env cv happ hs (helpName :: path)).1.what = .helpPage t →
+      (helpRun wrap w env cv happ hs (helpName :: path)).1.status = some 0 ∧
+      (helpRun wrap w env cv happ hs (path ++ [sw])).1.status = some 0 ∧
+      (helpRun wrap w env cv happ hs (helpName :: path)).1.invoked = [] ∧
+      (helpRun wrap w env cv happ hs (path ++ [sw])).1.invoked = []) := by
+  obtain ⟨h, hget, hc, _⟩ := wiredB_sound hwired
+  have hnamed := namedColl_get?_of_ofList (treeOf happ) helpName h hget hc.name hc.named
+  obtain ⟨cn, arg, hfm⟩ := hc.helpFmt
+  have hh' : ∀ p, path.head? = some p → cn.matches p = false :=
+    fun p h1 => headFreeB_sound hh hget p cn h1 (by rw [hfm.cmds]; exact List.mem_singleton.mpr rfl)
+  obtain ⟨a, hres, _⟩ := resolve_help cv (treeOf happ) h sw path hc hnamed hp
+  obtain ⟨a', hpar, _⟩ := help_parse_switch cv h.fmt true cn arg hfm path sw hp hh' hc.flag
+  have hno : helpSwitch (helpName :: path) = false := by
+    rw [← hasSwitch_eq]
+    apply hasSwitch_names
+    intro t hm
+    rcases List.mem_cons.mp hm with rfl | hm
+    · exact nameLike_helpName
+    · exact hp t hm
+  have hyes : helpSwitch (path ++ [sw]) = true := by
+    rw [← hasSwitch_eq]; exact hasSwitch_appended path sw hp hsw
+  -- the two lines select the command `help`
+  have hrc1 : resolveCommand cv (treeOf happ) (helpName :: path) = .ok ([helpName], a) := by
+    rw [resolveCommand_noswitch _ _ _ hno, hres]
+  have hrc2 : resolveCommand cv (treeOf happ) (path ++ [sw]) = .ok ([helpName], a') := by
+    rw [resolveCommand_switch _ _ _ hyes]
+    simp only [hget, hpar, hc.name]
+  have hva := versionSet_of_what env cv _ hs _ _ a hrc1 hv1
+  have hva' := versionSet_of_what env cv _ hs _ _ a' hrc2 hv2
+  -- ... and its handler selects the same page
+  have hsame := help_same_page_wired cv (treeOf happ) path sw hwired hp hh hsw
+  rw [helpTarget_command cv _ _ hno [helpName] a hres, helpTarget_switch cv _ _ hyes h a' hget hpar] at hsame
+  have hpath : isHelpPath [helpName] = true := by simp [isHelpPath]
+  rw [hpath, if_pos rfl] at hsame
+  have ht := map_some_inj _ _ hsame
+  obtain ⟨w1, i1, s1⟩ := runApp_help_selected env cv _ hs _ a hrc1 hva
+  obtain ⟨w2, i2, s2⟩ := runApp_help_selected env cv _ hs _ a' hrc2 hva'
+  have hwhat : (runApp env cv (treeOf happ) hs (helpName :: path)).what =
+      (runApp env cv (treeOf happ) hs (path ++ [sw])).what := by rw [w1, w2, ht]
+  refine ⟨hwhat, ?_, ?_⟩
+  · simp only [helpRun, hwhat]
+  · intro t htp
+    simp only [helpRun] at htp ⊢
+    have h1 : handlerTarget cv (treeOf happ) (helpName :: path) a = .ok t := by
+      rw [w1] at htp
+      cases hx : handlerTarget cv (treeOf happ) (helpName :: path) a with
+      | error e => rw [hx] at htp; cases htp
+      | ok t' => rw [hx] at htp; cases htp; rfl
+    exact ⟨s1 t h1, s2 t (ht ▸ h1), i1, i2⟩
+
+end AppHelp
+
+/-! ### Non-vacuity: the application of `App.Demo` with its configurations
+
+`hDemo` is a tree of configurations whose resolver tree is `App.Demo.app` (`help`; `server` / `srv` with
+the sub-command `add`): the three theorems applied with every hypothesis discharged by evaluation. -/
+section AppHelpDemo
+open Clikit.App Clikit.Switches
+open Clikit.App.Demo (env cv hs)
+
+def gOpt (long short descr : String) : HOpt :=
+  { long := S long, short := some (S short), preferLong := false, acceptsValue := false, valueRequired := false,
+    valueOptional := false, multi := false, valueName := S "...", descr := some (S descr), dflt := .absent }
+def hNames : HArg :=
+  { name := S "names", required := false, multi := true, descr := some (S "The names to add"), dflt := .list 0 (S "[]") }
+def hCommand : HArg :=
+  { name := S "command", required := false, multi := true, descr := some (S "The command name"), dflt := .list 0 (S "[]") }
+def hHelp : HCmd :=
+  .mk helpName [] true false false true (S "Display the manual of a command") none [hCommand] [] Demo.cHelp.fmt false []
+def hAdd : HCmd :=
+  .mk (S "add") [] false false false true (S "Add things") none [hNames] [gOpt "force" "f" "Overwrite"] Demo.cAdd.fmt false []
+def hServer : HCmd :=
+  .mk (S "server") [S "srv"] false false false true (S "Server things") none [] [] Demo.cServer.fmt false [hAdd]
+def hDemo : HApp :=
+  { name := some (S "app"), displayName := some (S "App"), version := some (S "1.0"), help := none,
+    opts := [gOpt "help" "h" "Display this help message", gOpt "quiet" "q" "Do not output any message"],
+    cmds := [hHelp, hServer] }
+
+/-- the resolver's tree of these configurations is the application of `App.Demo` -/
+example : treeOf hDemo = Demo.app := rfl
+
+def addPage : Page := commandHelp hDemo (hDemo.ctx.enter hServer) hAdd
+
+/-- the page of `server add` needs 19 columns -/
+example : targetPage hDemo (.cmd [S "server", S "add"]) = some addPage ∧ minWidth addPage = 19 := by decide
+
+/-- `app_help_run_prints_page` on `server add x -h`, 40 columns: the page of `server add`, status 0, no
+handler (the handler of `server add` would return 3), the text is the rendering of the page and no
+line has more than 39 characters; the page lists the global option `-h (--help)` and the own `--force` -/
+example :
+    (helpRun wrapH 40 env cv hDemo hs [S "server", S "add", S "x", S "-h"]).1.what = .helpPage (.cmd [S "server", S "add"]) ∧
+    (helpRun wrapH 40 env cv hDemo hs [S "server", S "add", S "x", S "-h"]).1.status = some 0 ∧
+    (helpRun wrapH 40 env cv hDemo hs [S "server", S "add", S "x", S "-h"]).1.invoked = [] ∧
+    ∃ s, (helpRun wrapH 40 env cv hDemo hs [S "server", S "add", S "x", S "-h"]).2 = some (.ok s) ∧
+      renderPage wrapH 40 addPage = .ok s ∧ (∀ l ∈ pageLines s, l.length ≤ 40 - 1) ∧
+      PageLists hDemo (.cmd [S "server", S "add"]) addPage :=
+  app_help_run_prints_page wrapH help_wrap_contract.2.1 40 env cv hDemo hs _ (by decide) (by decide) Demo.cHelp
+    { args := [(S "command", .list [.str (S "server"), .str (S "add"), .str (S "x")])],
+      opts := [(S "help", .scalar (.bool true))] }
+    (by rfl) (by decide +kernel) (by decide) _ (by decide +kernel) addPage (by decide) (by decide) (by decide)
+
+example : (2, optElem (gOpt "help" "h" "Display this help message")) ∈ addPage ∧
+    (2, optElem (gOpt "force" "f" "Overwrite")) ∈ addPage ∧ (2, argElem hNames) ∈ addPage := by
+  have hl : PageLists hDemo (.cmd [S "server", S "add"]) addPage :=
+    (help_page_text wrapH help_wrap_contract.2.1 40 hDemo _ addPage (by decide) (by decide) (by decide)).choose_spec.2.2.2
+  have := hl (hDemo.ctx.enter hServer) hAdd rfl
+  exact ⟨this.2.2.2.1 _ (by decide), this.2.1 _ (by decide), this.1 _ (by decide)⟩
+
+/-- ... and the text itself, line by line, the model evaluated (`wrapH`: the usage line and two
+descriptions are wrapped; the text ends with an empty line) -/
+example : ((helpRun wrapH 40 env cv hDemo hs [S "server", S "add", S "x", S "-h"]).2.map fun r => r.toOption.map pageLines) =
+    some (some [S "USAGE", S "  app server add [-f] [<names1>] ...", S "                 [<namesN>]", [],
+      S "ARGUMENTS", S "  <names>       The names to add", [], S "OPTIONS", S "  -f (--force)  Overwrite", [],
+      S "GLOBAL OPTIONS", S "  -h (--help)   Display this help", S "                message",
+      S "  -q (--quiet)  Do not output any", S "                message", [], []]) := by decide +kernel
+
+/-- `app_help_command_prints_page` on `help server` (the page of `server`: 23 columns are enough) -/
+example :
+    (helpRun wrapH 23 env cv hDemo hs [S "help", S "server"]).1.status = some 0 ∧
+    ∃ s, (helpRun wrapH 23 env cv hDemo hs [S "help", S "server"]).2 = some (.ok s) ∧
+      (∀ l ∈ pageLines s, l.length ≤ 23 - 1) := by
+  obtain ⟨_, h2, _, s, h4, _, h6, _⟩ := app_help_command_prints_page wrapH help_wrap_contract.2.1 23 env cv hDemo hs
+    [S "help", S "server"] { args := [(S "command", .list [.str (S "server")])], opts := [] } (by decide)
+    (by decide +kernel) (by decide) (.cmd [S "server"]) (by decide +kernel) (commandHelp hDemo hDemo.ctx hServer)
+    (by decide) (by decide) (by decide)
+  exact ⟨h2, s, h4, h6⟩
+
+/-- `app_help_command_same_text` on `help server add` / `server add --help` / `server add -h`, every width -/
+example (w : Nat) (sw : Str) (hsw : sw = S "-h" ∨ sw = S "--help") :
+    (helpRun wrapH w env cv hDemo hs [S "help", S "server", S "add"]).2 =
+      (helpRun wrapH w env cv hDemo hs [S "server", S "add", sw]).2 :=
+  (app_help_command_same_text wrapH w env cv hDemo hs [S "server", S "add"] sw
+    (by rcases hsw with rfl | rfl <;> decide) (by decide) (by decide) hsw (by decide +kernel)
+    (by rcases hsw with rfl | rfl <;> decide +kernel)).2.1
+
+/-- the hypothesis "not a version request" is needed: `help -V` shows the version, `-V -h` too -/
+example : (runApp env cv Demo.app hs [S "-V", S "-h"]).what = .version := by decide +kernel
+
+end AppHelpDemo
 
 end Clikit.Props.C13
